@@ -23,13 +23,19 @@ type VfConn struct {
 	WriteErrAfter   int // fail writes once Out holds this many bytes (0 = never)
 	WriteClosed     int
 	OutAtCloseWrite int
-	Chunk           int // deliver at most this many bytes per Read (0 = all)
+	Chunk           int            // deliver at most this many bytes per Read (0 = all)
+	OnRead          func(call int) // invoked at the start of every Read
+	reads           int
 }
 
 func (c *VfConn) note(s string) { c.Calls = append(c.Calls, s) }
 
 func (c *VfConn) Read(p []byte) (int, error) {
 	c.note("Read")
+	c.reads++
+	if c.OnRead != nil {
+		c.OnRead(c.reads)
+	}
 	if c.Closed > 0 {
 		return 0, net.ErrClosed
 	}
@@ -97,4 +103,16 @@ func VfOpenConns(p *Proxy) (int32, int) {
 func VfWriteErrorResponse(p *Proxy, c net.Conn, req *http.Request, err error) error {
 	p.init()
 	return newProxyConn(p, c).writeErrorResponse(req, err)
+}
+
+// VfRegistered reports whether c is in the proxy's connection registry.
+func VfRegistered(p *Proxy, c net.Conn) bool {
+	_, ok := p.conns[c]
+	return ok
+}
+
+// VfBeginClosing marks the proxy as shutting down (what Shutdown and Close do first).
+func VfBeginClosing(p *Proxy) {
+	p.init()
+	p.closeOnce.Do(func() { close(p.closeCh) })
 }
